@@ -840,6 +840,7 @@ func (s *IndexedState) FindCachedRules(ctx *Context, event Map) (map[string]*Rul
 				Log(ERROR, ctx, "IndexedState.FindCachedRules", "name", s.Name, "id", id, "error", err)
 				continue
 			}
+			rule.Id = id
 			acc[id] = rule
 			s.cachedRules[id] = rule
 		}
